@@ -60,13 +60,17 @@ func New(name string, tier string) Family {
 		return &ioFam{thorough: th}
 	case "seeds":
 		return &seedsFam{}
+	case "pure":
+		return &pureFam{thorough: th}
+	case "iterate":
+		return &iterateFam{thorough: th}
 	}
 	return nil
 }
 
 // Names lists the families in build order.
 func Names() []string {
-	return []string{"seeds", "arith", "index", "facts", "axioms", "loops", "refine", "ptr", "calls", "coro", "io"}
+	return []string{"seeds", "arith", "index", "facts", "axioms", "loops", "refine", "ptr", "calls", "coro", "io", "pure", "iterate"}
 }
 
 // All returns the whole tree of a family (ignoring acceptance), breadth first.
